@@ -1,2 +1,65 @@
-From Relic Require Import Base.Prelude C12.Model.
-Theorem placeholder_c12 : True. Proof. exact I. Qed.
+(* C12/Properties.v — property theorems only. Each is closed by a lemma of C12/Proofs.v. *)
+From Relic Require Import Base.Prelude Base.Enc Generated.C12_gen C12.Model C12.Proofs.
+From Coq Require Import Permutation.
+
+(* 1. write-then-rename on an ascending, disjoint, in-bounds patch list is the reference splice *)
+Theorem rewrite_is_splice : forall ps file,
+  asc_disjoint 0 ps (zlen file) = true -> rewrite ps file = Ok (splice ps file).
+Proof. exact C12.Proofs.rewrite_sorted. Qed.
+
+(* 2. Add in file order: coalescing and 4 GiB splitting never change the meaning *)
+Theorem add_fileorder_sound : forall cs file,
+  asc_disjoint 0 (map call_patch cs) (zlen file) = true ->
+  asc_disjoint 0 (add_all cs) (zlen file) = true /\
+  splice (add_all cs) file = splice (map call_patch cs) file.
+Proof. exact C12.Proofs.add_fileorder_sound. Qed.
+
+(* 3. the sort in Dump: with distinct offsets every offset-sorted permutation is the insertion sort *)
+Theorem sorted_perm_unique : forall q ps,
+  Permutation q ps -> nondecreasing q = true -> strictly_asc (isort ps) = true -> q = isort ps.
+Proof. exact C12.Proofs.sorted_perm_unique. Qed.
+
+(* 4. whole pipeline, builders that add in file order (PE, CAB, JAR, XAP, ...) *)
+Theorem apply_fileorder : forall cs file q,
+  asc_disjoint 0 (map call_patch cs) (zlen file) = true ->
+  Permutation q (add_all cs) -> nondecreasing q = true -> strictly_asc (isort (add_all cs)) = true ->
+  rewrite q file = Ok (splice_calls cs file).
+Proof. exact C12.Proofs.apply_fileorder. Qed.
+
+(* 5. whole pipeline, builders that add in any order with distinct offsets (Mach-O) *)
+Theorem apply_anyorder : forall cs file,
+  asc_disjoint 0 (isort (map call_patch cs)) (zlen file) = true ->
+  strictly_asc (isort (map call_patch cs)) = true ->
+  rewrite (isort (add_all cs)) file = Ok (splice_calls cs file).
+Proof. exact C12.Proofs.apply_anyorder. Qed.
+
+(* 6. serialise / parse round trip *)
+Theorem load_dump : forall ps,
+  Forall patch_ok ps -> zlen ps < 2 ^ 32 -> load (dump_sorted ps) = Ok ps.
+Proof. exact C12.Proofs.load_dump. Qed.
+
+(* 7. truncated or wrong-version patches are rejected (Load precedes any access to the target) *)
+Theorem load_rejects_prefix : forall ps n,
+  Forall patch_ok ps -> zlen ps < 2 ^ 32 -> 0 <= n < zlen (dump_sorted ps) ->
+  exists e, load (ztake n (dump_sorted ps)) = Err e.
+Proof. exact C12.Proofs.load_rejects_prefix. Qed.
+Theorem load_rejects_version : forall l,
+  8 <= zlen l -> be_dec (zslice 0 4 l) <> 1 -> load l = Err E_VERSION.
+Proof. exact C12.Proofs.load_rejects_version. Qed.
+
+(* 8. in-place and write-then-rename agree whenever Apply chooses in-place *)
+Theorem inplace_eq_rewrite : forall ps file size,
+  asc_disjoint 0 ps (zlen file) = true -> eligible ps file = Some size ->
+  rewrite ps file = Ok (inplace ps file size).
+Proof. exact C12.Proofs.inplace_eq_rewrite. Qed.
+
+(* non-vacuity: a PE-like shape (checksum field, dir entry, appended table) and a JAR-like shape *)
+Example pe_shape_in_domain :
+  let file := repeat 7 40%nat in
+  let cs := [mkCall 8 4 [1;2;3;4]; mkCall 20 8 [0;0;0;0;9;9;9;9]; mkCall 40 0 [5;5;5]] in
+  asc_disjoint 0 (map call_patch cs) (zlen file) = true /\
+  eligible (add_all cs) file = Some 43 /\
+  rewrite (add_all cs) file = Ok (inplace (add_all cs) file 43).
+Proof. vm_compute. repeat split. Qed.
+Example coalesce_happens : add_all [mkCall 0 2 [1]; mkCall 2 3 [2; 3]] = [mkPatch 0 5 [1; 2; 3]].
+Proof. reflexivity. Qed.
